@@ -8,8 +8,20 @@
 
    Scheduling discipline (asyncio is cooperative): `running` is the call whose synchronous
    section is executing; no other call moves meanwhile. External stimuli (Call, FwdReply,
-   Wake, Tick, Connect, Disconnect) happen only when the loop is quiescent, exactly as the
-   executor applies one stimulus and then runs the loop until nothing is ready.
+   Wake, Tick, Connect, Disconnect, Cancel..., LateReply) happen only when the loop is quiescent, exactly
+   as the executor applies one stimulus and then runs the loop until nothing is ready.
+
+   Cancellation.  The caller may cancel a call in progress (task.cancel(), asyncio.wait_for, a TaskGroup
+   torn down).  At quiescence a call is suspended in one of three places: in the queue of the command
+   semaphore (CancelWaiting), in `asyncio.sleep(0.001)` of the timestamp guard while HOLDING the semaphore
+   (CancelSleeping), in the express of its command Interest while holding it (CancelSent).  The call ends
+   there (pc "cancelled"): it leaves the queue / releases the semaphore, so that the other calls go on;
+   _last_command_timestamp and the wire are untouched.  Interpretation: the statement does not say what a
+   cancelled call reports; the code raises CancelledError in the first two places and, in the third, turns
+   the cancellation of the express into InterestCanceled and returns False - CancelSent accepts either.
+   A cancelled call is not an "exchange that finished" (fin is unchanged, SuccessIff200 does not judge it);
+   a reply that arrives for its command later goes nowhere (LateReply).  Only calls made by the user are
+   cancelled (not the starting task, not the task of a route declared while connected).
 
    Clock.  `clock` is the wall clock in ms (utils.timestamp()).  It may or may not advance
    between any two steps: Tick advances it between stimuli; inside a run the only two places
@@ -40,6 +52,7 @@ CONSTANTS FrontEnd,      \* "v2" | "legacy"
           LateRoutes,    \* set of prefixes that may be declared with route() WHILE connected (disjoint from the others)
           Stall,         \* TRUE: 1 ms of loop time may pass with the wall clock standing still (Wake with adv = 0)
           MaxConn,       \* number of Connect steps allowed
+          MaxCancel,     \* number of calls the caller may cancel while they are in progress (bound)
           MaxClock,
           ReplyKinds,    \* subset of AllReplyKinds
           Allowed,       \* subset of AllDevs: deviations the code may or may not have (decided at the first point they show)
@@ -68,7 +81,7 @@ VARIABLES clock,    \* wall clock (ms)
           autoCall, \* call id of the auto-registration in progress, or 0
           nauto,    \* number of auto-registrations started so far; they use the call ids from NCalls downwards,
                     \* user calls the ids from 1 upwards (the harness sees the results of user calls only)
-          pc,       \* per call: idle|start|wantSem|waitingSem|acquired|guardOk|guardFail|sleeping|woken|sent|replied|done
+          pc,       \* per call: idle|start|wantSem|waitingSem|acquired|guardOk|guardFail|sleeping|woken|sent|replied|done|cancelled
           vb, pf, wf,  \* per call: verb, prefix, legacy register called with a handler function
           g,        \* per call: clock value read by the guard (last reading, passed or not)
           tries,    \* per call: guard readings that did not pass
@@ -79,7 +92,7 @@ VARIABLES clock,    \* wall clock (ms)
           cmds,     \* command Interests put on the wire: [verb, prefix, ts, fmt, call, conn]
           replies,  \* per call: what the forwarder answered [k, body] (cleared when the call finishes)
           fin,      \* the exchange that finished last: [c, k, body] (c = 0: none yet)
-          result,   \* per call: [k |-> "none"] | [k |-> "ret", v] | [k |-> "raised"]
+          result,   \* per call: [k |-> "none"] | [k |-> "ret", v] | [k |-> "raised"] | [k |-> "cancelled"] (CancelledError)
           filt,     \* legacy: prefixes that currently have an Interest filter
           running,  \* call executing its synchronous section, 0 = none
           dev,      \* deviations the code was seen to have
@@ -93,6 +106,7 @@ NoReply == [k |-> "none", body |-> FALSE]
 NoResult == [k |-> "none", v |-> FALSE]
 Ret(b) == [k |-> "ret", v |-> b]
 Raised == [k |-> "raised", v |-> FALSE]
+CancelledRes == [k |-> "cancelled", v |-> FALSE]
 
 Range(s) == {s[i] : i \in 1..Len(s)}
 Legacy == FrontEnd = "legacy"
@@ -135,7 +149,7 @@ CmdsOf(c) == {i \in 1..Len(cmds) : cmds[i].call = c}
 ExactlyOneCommand ==
   \A c \in Calls :
     /\ Cardinality(CmdsOf(c)) <= 1
-    /\ (pc[c] \in {"sent", "replied"} \/ (pc[c] = "done" /\ result[c].k = "ret")) => Cardinality(CmdsOf(c)) = 1
+    /\ (pc[c] \in {"sent", "replied"} \/ (pc[c] \in {"done", "cancelled"} /\ result[c].k = "ret")) => Cardinality(CmdsOf(c)) = 1
     /\ \A i \in CmdsOf(c) : cmds[i].verb = vb[c] /\ cmds[i].prefix = pf[c] /\ cmds[i].fmt = FrontEnd
     /\ pc[c] \in {"idle", "start", "wantSem", "waitingSem", "acquired", "guardOk", "guardFail", "sleeping", "woken"} => CmdsOf(c) = {}
 RegCount(e, r) == Cardinality({i \in 1..Len(cmds) : cmds[i].conn = e /\ cmds[i].verb = "register" /\ cmds[i].prefix = r})
@@ -151,6 +165,12 @@ RoutesOncePerConnection ==
 \* no waiter is left behind when the semaphore is free and nothing runs
 NoStrandedWaiter == Quiescent => ~(sem = 0 /\ semQ # <<>>)
 SemHolderOk == sem # 0 => pc[sem] \in {"acquired", "guardOk", "guardFail", "sleeping", "woken", "sent", "replied"}
+\* a cancelled call holds nothing: neither the semaphore nor a place in its queue (and the queue holds waiting calls only)
+Canc == {c \in Calls : pc[c] = "cancelled"}
+CancelReleases == /\ \A c \in Canc : sem # c /\ c \notin Range(semQ)
+                  /\ \A i \in 1..Len(semQ) : pc[semQ[i]] = "waitingSem"
+\* calls made by the user (the starting task and the tasks of late routes use the ids from the top)
+IsUser(c) == c <= NCalls - nauto /\ c # autoCall
 
 BadNow == (IF OneAtATime THEN {} ELSE {"OneAtATime"})
      \cup (IF TsStrictlyIncreasing THEN {} ELSE {"TsStrictlyIncreasing"})
@@ -235,10 +255,49 @@ Connect(d) ==
 \* the face goes down; bound: only with no call in progress
 Disconnect ==
   /\ Quiescent /\ up /\ autoQ = <<>> /\ autoCall = 0
-  /\ \A c \in Calls : pc[c] \in {"idle", "done"}
+  /\ \A c \in Calls : pc[c] \in {"idle", "done", "cancelled"}
   /\ up' = FALSE
   /\ filt' = {}                                             \* legacy _clean_up clears the handler table
   /\ UNCHANGED <<clock, pend, conn, autoQ, autoCall, nauto, pc, vb, pf, wf, g, tries, late, sem, semQ, lastTs, cmds, replies, fin, result, running, dev, nodev>>
+  /\ Track
+
+\* The caller cancels call c. d: see pend (the run that follows may read the clock: a waiter that goes on).
+CanCancel(c, d) == Quiescent /\ IsUser(c) /\ Cardinality(Canc) < MaxCancel /\ clock + d <= MaxClock
+Release(c) == IF sem = c THEN 0 ELSE sem
+\* ... while it waits in the queue of the command semaphore: it leaves the queue
+CancelWaiting(c, d) ==
+  /\ CanCancel(c, d) /\ pc[c] = "waitingSem"
+  /\ semQ' = SelectSeq(semQ, LAMBDA x : x # c)
+  /\ pc' = [pc EXCEPT ![c] = "cancelled"] /\ result' = [result EXCEPT ![c] = CancelledRes]
+  /\ pend' = d
+  /\ UNCHANGED <<clock, up, conn, autoQ, autoCall, nauto, vb, pf, wf, g, tries, late, sem, lastTs, cmds, replies, fin, filt, running, dev, nodev>>
+  /\ Track
+\* ... while it holds the semaphore and sleeps in the guard loop: `async with` releases the semaphore, the first waiter goes on
+CancelSleeping(c, d) ==
+  /\ CanCancel(c, d) /\ pc[c] = "sleeping"
+  /\ sem' = Release(c)
+  /\ pc' = [pc EXCEPT ![c] = "cancelled"] /\ result' = [result EXCEPT ![c] = CancelledRes]
+  /\ pend' = d
+  /\ UNCHANGED <<clock, up, conn, autoQ, autoCall, nauto, vb, pf, wf, g, tries, late, semQ, lastTs, cmds, replies, fin, filt, running, dev, nodev>>
+  /\ Track
+\* ... while it holds the semaphore and waits for the reply: the pending Interest is dropped, the semaphore released.
+\* The code reports False (the express turns the cancellation into InterestCanceled); CancelledError is as good.
+\* (the choice is NOT a parameter of the action: the implementation makes it, the observation tells)
+CancelSent(c, d) ==
+  /\ CanCancel(c, d) /\ pc[c] = "sent"
+  /\ sem' = Release(c)
+  /\ pc' = [pc EXCEPT ![c] = "cancelled"]
+  /\ \E swallowed \in BOOLEAN : result' = [result EXCEPT ![c] = IF swallowed THEN Ret(FALSE) ELSE CancelledRes]
+  /\ pend' = d
+  /\ UNCHANGED <<clock, up, conn, autoQ, autoCall, nauto, vb, pf, wf, g, tries, late, semQ, lastTs, cmds, replies, fin, filt, running, dev, nodev>>
+  /\ Track
+CancelCall(c, d) == CancelWaiting(c, d) \/ CancelSleeping(c, d) \/ CancelSent(c, d)
+
+\* the forwarder answers a command whose call was cancelled meanwhile: nobody waits for it, nothing happens
+LateReply(c, d) ==
+  /\ Quiescent /\ pc[c] = "cancelled" /\ CmdsOf(c) # {} /\ clock + d <= MaxClock
+  /\ pend' = d
+  /\ UNCHANGED <<clock, up, conn, autoQ, autoCall, nauto, pc, vb, pf, wf, g, tries, late, sem, semQ, lastTs, cmds, replies, fin, result, filt, running, dev, nodev>>
   /\ Track
 
 -----------------------------------------------------------------------------
@@ -415,6 +474,7 @@ Env == \/ \E c \in Calls, v \in UserVerbs, p \in UserPrefixes, w \in BOOLEAN, d 
        \/ \E c \in Calls, k \in ReplyKinds, b \in BOOLEAN, d \in 0..1 : FwdReply(c, k, b, d)
        \/ \E d \in 0..1 : Connect(d)
        \/ Disconnect
+       \/ \E c \in Calls, d \in 0..1 : CancelWaiting(c, d) \/ CancelSleeping(c, d) \/ CancelSent(c, d) \/ LateReply(c, d)
 Internal == \/ AutoNext \/ EndRun
             \/ \E c \in Calls : Begin(c) \/ BeginRefused(c) \/ Acquire(c) \/ AcquireWake(c) \/ ReadClock(c) \/ Sleep(c) \/ Send(c) \/ Finish(c)
 
@@ -424,7 +484,8 @@ Spec == Init /\ [][Next]_vars
 TypeOK ==
   /\ clock \in 0..MaxClock /\ pend \in 0..1 /\ running \in 0..NCalls /\ sem \in 0..NCalls
   /\ \A c \in Calls : pc[c] \in {"idle", "start", "wantSem", "waitingSem", "acquired", "guardOk", "guardFail",
-                                 "sleeping", "woken", "sent", "replied", "done"}
+                                 "sleeping", "woken", "sent", "replied", "done", "cancelled"}
+  /\ \A c \in Calls : result[c].k \in {"none", "ret", "raised", "refused", "cancelled"}
   /\ dev \subseteq (Allowed \cup Forced) /\ nodev \subseteq Allowed /\ dev \cap nodev = {}
 
 \* the stimuli are guarded so that the clock stays inside the bound
@@ -435,5 +496,12 @@ W_Waiting == ~(Len(semQ) >= 2)
 W_Slept == ~(\E c \in Calls : pc[c] = "woken")
 W_TwoCmds == ~(Len(cmds) >= 2 /\ \E c \in Calls : pc[c] = "done" /\ result[c] = Ret(TRUE))
 W_FailNack == ~(fin.c # 0 /\ fin.k = "nack" /\ result[fin.c] = Ret(FALSE))
+\* cancellations: each place is reached; after a call was cancelled (having sent nothing: in the queue or in the guard
+\* loop) a LATER call still gets its command onto the wire and its answer; a waiter goes on after the holder was cancelled
+W_CancelHolder == ~(\E c \in Canc : CmdsOf(c) = {} /\ sem > c /\ pc[sem] = "sleeping")
+W_CancelSentRet == ~(\E c \in Canc : result[c] = Ret(FALSE))
+W_CancelSentExc == ~(\E c \in Canc : CmdsOf(c) # {} /\ result[c] = CancelledRes)
+W_CmdAfterCancel == ~(\E c \in Canc : CmdsOf(c) = {} /\ \E x \in Calls : x > c /\ IsUser(x) /\ pc[x] = "done" /\ result[x] = Ret(TRUE)
+                                                                             /\ \E i \in CmdsOf(x) : cmds[i].ts > 0)
 W_Reconnect == ~(conn = 2 /\ Quiescent /\ AutoDone(2) /\ Len(cmds) >= 2 * Len(Routes) /\ Len(Routes) > 0)
 =============================================================================
